@@ -80,7 +80,7 @@ PROPS = {
     },
     "C12": {
         "streams": [("flatten", 3000, 40000)],
-        "level_text": "Proof: on the model of Flatten's merge loop, for every processing order (unstable sort): entries conserved (permutation), two groups with equal header signatures always share a trace number, and flattening the result again (any order) changes nothing. Flatten functions pinned by body hash.",
+        "level_text": "Proof: on the model of Flatten's merge loop, for every processing order (unstable sort): entries conserved (permutation), two groups with equal header signatures always share a trace number, flattening the result again (any order) changes nothing, and every output batch holds its entries in ascending trace order (strictly, trace numbers inside a group being distinct). Flatten functions pinned by body hash.",
         "level_note": "Trusted: header signature abstracted to a key (the real one is the first 87 BYTES of the rendered header: the oracle found that a multi-byte character shifts the cut - known finding); Copy()'s pointer sharing, Create of merged batches (C05) not modelled.",
     },
     "C14": {
